@@ -3,7 +3,7 @@ CONSTANT Ns = {2, 3}
 CONSTANT GridNum <- QuickGrid
 CONSTANT GridDen = 2
 CONSTANT K = 5
-CONSTANT ListNs = {4, 8}
+CONSTANT ListNs = {4, 8, 12}
 CONSTANT NList = 12
 CONSTANT Emit = TRUE
 
